@@ -599,7 +599,9 @@ def _(p, i, r):
 @op("V43", "macro_lower", "MACRO_NAME_CAPITAL", ("pp_define",), ("c", "h"))
 def _(p, i, r):
     l = p.lines[i]
-    if _rename_on_line(l, "id:macro", lambda n: n.lower() if n.lower() != n else None, r) is None:
+    from nv.gen.conf import KEYWORDS, SPECIAL
+    if _rename_on_line(l, "id:macro", lambda n: n.lower() if n.lower() != n and n.lower() not in KEYWORDS
+                       and n.lower() not in SPECIAL else None, r) is None:
         return None
     return i
 
